@@ -354,7 +354,12 @@ func (c *C07Dup) payload(i int) any {
 	return v
 }
 
-func checkC07Dup(t *testing.T, c C07Dup) Verdict {
+func checkC07Dup(t *testing.T, c C07Dup) Verdict { return dupCore(t, c, "C07") }
+
+// dupCore runs the equal-payloads scenario; each property asserts only its own clauses (C07: every
+// item executed exactly once; C06: post once, lists of length n in prep's order, slot i an outcome
+// of its own).
+func dupCore(t *testing.T, c C07Dup, prop string) Verdict {
 	n := len(c.Vals)
 	var mu sync.Mutex
 	calls := 0
@@ -390,9 +395,12 @@ func checkC07Dup(t *testing.T, c C07Dup) Verdict {
 		return bad("C07:bubble", "%s", fail)
 	}
 	if runErr != nil || postCalls != 1 {
+		if prop == "C07" {
+			return ok(false, "run-not-clean") // post count and run error are C06's / C04's clauses
+		}
 		return bad("C07:dup-run", "batch of %d items with equal payloads: run error %v, post called %d times", n, runErr, postCalls)
 	}
-	if calls != n {
+	if calls != n && prop == "C07" {
 		return bad("C07:dup-items-merged", "%d items (payloads %v, kind %d, concurrency %d): exec was called %d times - items with equal payloads are still separate items", n, c.Vals, c.Kind, c.C, calls)
 	}
 	if len(postItems) != n || len(postRes) != n {
